@@ -98,15 +98,19 @@ theorem total_ok {v : Votes} (h : cast v ≤ U64_MAX) : v.total = .ok (cast v) :
   have h2 : v.yes + v.no + v.abstain ≤ U64_MAX := by omega
   simp [h1, h2, h]
 
-/-- The library's decision on a FINAL tally (what `is_passed` computes once the proposal has
-expired), as a pure formula. -/
-def libPasses (thr : Threshold) (total : Nat) (v : Votes) : Bool :=
+/-- What `is_passed` computes, as a pure formula.  Only the base of a quorum threshold depends
+on expiry: the opinions cast once expired, the whole non-abstaining weight before. -/
+def libPassesAt (thr : Threshold) (total : Nat) (v : Votes) (expired : Bool) : Bool :=
   decide (0 < v.yes) &&
   match thr with
   | .absoluteCount k => decide (k ≤ v.yes)
   | .absolutePercentage a => decide (votesNeeded (total - v.abstain) a ≤ v.yes)
   | .thresholdQuorum t q =>
-    decide (votesNeeded total q ≤ cast v) && decide (votesNeeded (cast v - v.abstain) t ≤ v.yes)
+    decide (votesNeeded total q ≤ cast v) &&
+    decide (votesNeeded ((if expired then cast v else total) - v.abstain) t ≤ v.yes)
+
+/-- The library's decision on a FINAL tally (what `is_passed` computes once the proposal has expired). -/
+def libPasses (thr : Threshold) (total : Nat) (v : Votes) : Bool := libPassesAt thr total v true
 
 /-- The documented cw3 rule on a final tally in EXACT arithmetic (cross-multiplied integers,
 independent of `votes_needed`): `yes ≥ k`; `yes/(total-abstain) ≥ a`; quorum `cast/total ≥ q` and
@@ -204,5 +208,151 @@ theorem isRejected_quorum {p : Tally} {t q : Nat} (blk : Block) (ht : p.threshol
   by_cases he : p.expires.isExpired blk = true
   · rw [if_pos he, if_pos he, htot, ok_bind, subU64_bind_of_le hab', oneMinus_bind_of_le ha, pure_eq_ok]
   · rw [if_neg he, if_neg he, subU64_bind_of_le hab, oneMinus_bind_of_le ha, pure_eq_ok]
+
+/-! ## 3. No panic inside the premise; never passed without Yes weight -/
+
+theorem Premise.abstain_le {p : Tally} (h : Premise p) : p.votes.abstain ≤ p.totalWeight := by
+  have := h.tally_le; unfold cast at this; omega
+
+/-- under the premise `is_passed` is the library formula -/
+theorem isPassed_eq {p : Tally} (h : Premise p) (blk : Block) :
+    isPassed p blk = .ok (libPassesAt p.threshold p.totalWeight p.votes (p.expires.isExpired blk)) := by
+  cases ht : p.threshold with
+  | absoluteCount k => rw [isPassed_count blk ht]; simp [libPassesAt]
+  | absolutePercentage a => rw [isPassed_pct blk ht h.abstain_le]; simp [libPassesAt]
+  | thresholdQuorum t q => rw [isPassed_quorum blk ht h.tally_le h.total_u64]; simp [libPassesAt]
+
+/-- C04 "for all weights up to the 64-bit limit": inside the premise none of the `u64`
+subtractions/additions, the `Decimal` subtraction or the `as u64` cast can fail — the three
+decision functions return a value. -/
+theorem no_panic {p : Tally} (h : Premise p) (blk : Block) :
+    (∃ b, isPassed p blk = .ok b) ∧ (∃ b, isRejected p blk = .ok b) ∧ (∃ s, currentStatus p blk = .ok s) := by
+  have hp : ∃ b, isPassed p blk = .ok b := ⟨_, isPassed_eq h blk⟩
+  have hr : ∃ b, isRejected p blk = .ok b := by
+    have hv := h.valid
+    cases ht : p.threshold with
+    | absoluteCount k => rw [ht] at hv; exact ⟨_, isRejected_count blk ht (valid_count hv).2⟩
+    | absolutePercentage a => rw [ht] at hv; exact ⟨_, isRejected_pct blk ht h.abstain_le (valid_pct hv).2⟩
+    | thresholdQuorum t q =>
+      rw [ht] at hv; exact ⟨_, isRejected_quorum blk ht h.tally_le h.total_u64 (valid_quorum hv).2.1⟩
+  refine ⟨hp, hr, ?_⟩
+  obtain ⟨b, hb⟩ := hp
+  obtain ⟨r, hr⟩ := hr
+  unfold currentStatus
+  by_cases hs : p.status ≠ .open
+  · rw [if_pos hs]; exact ⟨_, rfl⟩
+  · rw [if_neg hs, hb, ok_bind]
+    cases b with
+    | true => exact ⟨_, rfl⟩
+    | false =>
+      rw [hr]
+      simp only [Bool.false_eq_true, if_false, ok_bind]
+      split <;> exact ⟨_, rfl⟩
+
+/-- C04 "never Passed without Yes weight" — for EVERY tally and threshold, even outside the premise
+(this is the guard added by the fix of defect D1). -/
+theorem passed_needs_yes {p : Tally} {blk : Block} (h : isPassed p blk = .ok true) : 0 < p.votes.yes := by
+  unfold isPassed at h
+  by_cases h0 : p.votes.yes = 0
+  · rw [if_pos h0] at h; cases h
+  · omega
+
+/-! ## 4. After expiry the decision is the documented formula -/
+
+/-- C04 clause 1, all threshold kinds at once: once expired, `is_passed` is `libPasses`
+(Yes weight present, and the required Yes weight `votes_needed`, i.e. the percentage rounded up,
+is reached; quorum computed over all votes cast, threshold over the opinions cast). -/
+theorem expired_decision_eq_formula {p : Tally} (h : Premise p) {blk : Block}
+    (he : p.expires.isExpired blk = true) :
+    isPassed p blk = .ok (libPasses p.threshold p.totalWeight p.votes) := by
+  rw [isPassed_eq h blk, he]; rfl
+
+/-- AbsoluteCount `k`: passed iff `yes ≥ k` (exact; `k ≥ 1` by validation, `0 < yes` is the D1 guard) -/
+theorem expired_decision_eq_formula_count {p : Tally} {k : Nat} (blk : Block)
+    (ht : p.threshold = .absoluteCount k) :
+    isPassed p blk = .ok (decide (0 < p.votes.yes ∧ k ≤ p.votes.yes)) := isPassed_count blk ht
+
+/-- AbsolutePercentage `a`: passed iff `0 < yes` and `yes ≥ votes_needed(total - abstain, a)` -/
+theorem expired_decision_eq_formula_pct {p : Tally} {a : Nat} (h : Premise p) (blk : Block)
+    (ht : p.threshold = .absolutePercentage a) :
+    isPassed p blk = .ok (decide (0 < p.votes.yes ∧
+      votesNeeded (p.totalWeight - p.votes.abstain) a ≤ p.votes.yes)) := isPassed_pct blk ht h.abstain_le
+
+/-- ThresholdQuorum `t q`, expired: passed iff `0 < yes`, `cast ≥ votes_needed(total, q)` and
+`yes ≥ votes_needed(cast - abstain, t)` -/
+theorem expired_decision_eq_formula_quorum {p : Tally} {t q : Nat} (h : Premise p) {blk : Block}
+    (ht : p.threshold = .thresholdQuorum t q) (he : p.expires.isExpired blk = true) :
+    isPassed p blk = .ok (decide (0 < p.votes.yes ∧ votesNeeded p.totalWeight q ≤ cast p.votes ∧
+      votesNeeded (cast p.votes - p.votes.abstain) t ≤ p.votes.yes)) := by
+  rw [isPassed_quorum blk ht h.tally_le h.total_u64, he]; rfl
+
+/-- for a decimal with at most 9 places the requirement is the exact rational comparison -/
+theorem vn_le_iff_exact9 {w a y : Nat} (h9 : PRECISION_FACTOR ∣ a) (ha : a ≤ DEC_ONE) (hw : w ≤ U64_MAX) :
+    votesNeeded w a ≤ y ↔ w * a ≤ y * DEC_ONE := by
+  obtain ⟨p, rfl⟩ := h9
+  have hp : p ≤ PRECISION_FACTOR := by simp only [PRECISION_FACTOR, DEC_ONE] at *; omega
+  rw [vn_exact_le_iff hp hw, Nat.mul_left_comm w PRECISION_FACTOR p]
+  generalize w * p = A
+  simp only [PRECISION_FACTOR, DEC_ONE]; omega
+
+/-- thresholds written with at most 9 decimal places -/
+def nineDecimals : Threshold → Prop
+  | .absoluteCount _ => True
+  | .absolutePercentage a => PRECISION_FACTOR ∣ a
+  | .thresholdQuorum t q => PRECISION_FACTOR ∣ t ∧ PRECISION_FACTOR ∣ q
+
+/-- C04 "up to 9 decimal places (exact)": for such thresholds the library's final decision IS the
+documented formula in exact rational arithmetic (cross-multiplied). -/
+theorem libPasses_eq_exact9 {thr : Threshold} {total : Nat} {v : Votes}
+    (hv : thr.validate total = .ok ()) (hc : cast v ≤ total) (hu : total ≤ U64_MAX) (h9 : nineDecimals thr) :
+    libPasses thr total v = exactPasses thr total v := by
+  have hab : v.abstain ≤ total := by unfold cast at hc; omega
+  cases thr with
+  | absoluteCount k => rfl
+  | absolutePercentage a =>
+    have := vn_le_iff_exact9 (w := total - v.abstain) (y := v.yes) h9 (valid_pct hv).2 (by omega)
+    simp only [libPasses, libPassesAt, exactPasses, this]
+  | thresholdQuorum t q =>
+    have hq := valid_quorum hv
+    have e1 := vn_le_iff_exact9 (w := total) (y := cast v) h9.2 hq.2.2.2 hu
+    have e2 := vn_le_iff_exact9 (w := cast v - v.abstain) (y := v.yes) h9.1 hq.2.1 (by omega)
+    simp only [libPasses, libPassesAt, exactPasses, e1, e2, if_true]
+
+/-- C04 "up to 18 decimal places (within one vote, never stricter than exact)": whenever the exact
+formula passes the library passes, and whenever the library passes the exact formula passes with
+at most one vote of slack on each percentage requirement. -/
+theorem libPasses_within_one {thr : Threshold} {total : Nat} {v : Votes}
+    (hv : thr.validate total = .ok ()) (hc : cast v ≤ total) (hu : total ≤ U64_MAX) :
+    (exactPasses thr total v = true → libPasses thr total v = true) ∧
+    (libPasses thr total v = true → laxPasses thr total v = true) := by
+  have hab : v.abstain ≤ total := by unfold cast at hc; omega
+  cases thr with
+  | absoluteCount k => exact ⟨id, id⟩
+  | absolutePercentage a =>
+    have := vn_le_iff_within_one (w := total - v.abstain) (y := v.yes) (valid_pct hv).2 (by omega)
+    simp only [libPasses, libPassesAt, exactPasses, laxPasses, Bool.and_eq_true, decide_eq_true_eq]
+    exact ⟨fun h => ⟨h.1, this.1 h.2⟩, fun h => ⟨h.1, this.2 h.2⟩⟩
+  | thresholdQuorum t q =>
+    have hq := valid_quorum hv
+    have e1 := vn_le_iff_within_one (w := total) (y := cast v) hq.2.2.2 hu
+    have e2 := vn_le_iff_within_one (w := cast v - v.abstain) (y := v.yes) hq.2.1 (by omega)
+    simp only [libPasses, libPassesAt, exactPasses, laxPasses, Bool.and_eq_true, decide_eq_true_eq, if_true]
+    exact ⟨fun h => ⟨h.1, e1.1 h.2.1, e2.1 h.2.2⟩, fun h => ⟨h.1, e1.2 h.2.1, e2.2 h.2.2⟩⟩
+
+/-- C04 clause 1 for 9-decimal thresholds, on the decision function itself -/
+theorem expired_decision_exact9 {p : Tally} (h : Premise p) {blk : Block}
+    (he : p.expires.isExpired blk = true) (h9 : nineDecimals p.threshold) :
+    isPassed p blk = .ok (exactPasses p.threshold p.totalWeight p.votes) := by
+  rw [expired_decision_eq_formula h he, libPasses_eq_exact9 h.valid h.tally_le h.total_u64 h9]
+
+/-- C04 clause 1 for 18-digit thresholds, on the decision function itself: never stricter than the
+exact formula, at most one vote more permissive. -/
+theorem expired_decision_within_one {p : Tally} (h : Premise p) {blk : Block}
+    (he : p.expires.isExpired blk = true) :
+    (exactPasses p.threshold p.totalWeight p.votes = true → isPassed p blk = .ok true) ∧
+    (isPassed p blk = .ok true → laxPasses p.threshold p.totalWeight p.votes = true) := by
+  have := libPasses_within_one (v := p.votes) h.valid h.tally_le h.total_u64
+  rw [expired_decision_eq_formula h he]
+  exact ⟨fun hx => congrArg _ (this.1 hx), fun hx => this.2 (Except.ok.inj hx)⟩
 
 end CwPlus.Props.C04
